@@ -194,4 +194,5 @@ def main(argv):
 
 
 if __name__ == "__main__":
-    sys.exit(main(sys.argv[1:]))
+    import core          # one copy of this module only (exception classes are compared by identity)
+    sys.exit(core.main(sys.argv[1:]))
